@@ -82,7 +82,8 @@ def FrameOK (s : Net) (f : Flight) : Prop :=
 
 structure Inv (s : Net) : Prop where
   sym : ∀ a b, linked s a b = true → linked s b a = true
-  flight : ∀ f, f ∈ s.flight → linked s f.src f.dst = true ∧ (f.adv.routes ≠ [] → FrameOK s f)
+  flight : ∀ f, f ∈ s.flight → linked s f.src f.dst = true ∧
+    (f.adv.wd = false → f.adv.routes ≠ [] → FrameOK s f)
   entries : ∀ x e, e ∈ (s.nodes x).entries →
     (e.origin ≠ x → e.path ≠ []) ∧ (e.path ≠ [] → EntryOK s x e)
 
@@ -141,23 +142,27 @@ theorem inv_step {s : Net} {op : Op} (hI : Inv s) : Inv (step s op) where
     intro f hf
     cases flight_step hf with
     | old h =>
-      exact ⟨linked_step (hI.flight f h).1, fun hr => frameOK_mono ((hI.flight f h).2 hr)⟩
+      exact ⟨linked_step (hI.flight f h).1, fun hw hr => frameOK_mono ((hI.flight f h).2 hw hr)⟩
     | ann hop ha hd hadv =>
-      refine ⟨linked_step (mem_peersOf hd).1, fun _ => ⟨[], ?_, rfl, ?_⟩⟩
+      refine ⟨linked_step (mem_peersOf hd).1, fun _ _ => ⟨[], ?_, rfl, ?_⟩⟩
       · rw [hadv]; rfl
       · rw [hadv]; rfl
-    | fwd a m hm hl ha hb hd hne hns hself hacc hlim hadv =>
-      refine ⟨linked_step (mem_peersOf hd).1, fun hr => ?_⟩
+    | wdr hop ha hcidr hd hadv =>
+      refine ⟨linked_step (mem_peersOf hd).1, fun hw => ?_⟩
+      rw [hadv] at hw; simp [withdrawAdv] at hw
+    | fwd a m hm hl ha hb hd hne hns hself hseen hsb hlim hadv =>
+      refine ⟨linked_step (mem_peersOf hd).1, fun hw hr => ?_⟩
+      have hw' : m.wd = false := by rw [hadv, fwdAdv_wd] at hw; exact hw
       have hr' : m.routes ≠ [] := by
-        intro h0; apply hr; rw [hadv]; simp [fwdAdv, h0]
-      obtain ⟨rest, h1, h2, h3⟩ := (hI.flight _ hm).2 hr'
+        intro h0; apply hr; rw [hadv, fwdAdv_routes hw']; simp [h0]
+      obtain ⟨rest, h1, h2, h3⟩ := (hI.flight _ hm).2 hw' hr'
       simp only at h1 h2 h3
-      refine ⟨a :: rest, by rw [hadv]; simp [fwdAdv, h1], ?_, ?_⟩
+      refine ⟨a :: rest, by rw [hadv, fwdAdv_path hw', h1], ?_, ?_⟩
       · simp only [chainOK, Bool.and_eq_true]
         exact ⟨linked_step (hI.sym _ _ hl), chainOK_mono (fun a b => linked_step) _ _ h2⟩
-      · rw [List.getLast?_cons_cons, hadv]; exact h3
+      · rw [List.getLast?_cons_cons, hadv, fwdAdv_origin]; exact h3
     | rep ord hop ha hb hl hadv =>
-      refine ⟨linked_step hl, fun hr => ?_⟩
+      refine ⟨linked_step hl, fun _ hr => ?_⟩
       obtain ⟨o, sq, _, _, hm⟩ := mem_replayAdvs hadv
       rcases replayGroup_cases f.src f.dst ((tick s).nodes f.src) o sq with
         ⟨e, he, heo, _, hne, hp⟩ | ⟨hp, hnil⟩
@@ -179,13 +184,13 @@ theorem inv_step {s : Net} {op : Op} (hI : Inv s) : Inv (step s op) where
         exact ⟨[], by rw [hm]; exact hp, rfl, by rw [hm, ← ho]; rfl⟩
   entries := by
     intro x e he
-    rcases entries_step he with h | ⟨a, m, hm, hl, _, _, _, _, r, hr, rfl⟩
+    rcases entries_step he with h | ⟨a, m, hm, hl, _, _, hwd, _, _, r, hr, rfl⟩
     · obtain ⟨h1, h2⟩ := hI.entries x e h
       refine ⟨h1, fun hne => ?_⟩
       obtain ⟨g1, g2, g3⟩ := h2 hne
       exact ⟨g1, chainOK_mono (fun a b => linked_step) _ _ g2, g3⟩
     · have hr' : m.routes ≠ [] := by intro h0; rw [h0] at hr; cases hr
-      obtain ⟨rest, h1, h2, h3⟩ := (hI.flight _ hm).2 hr'
+      obtain ⟨rest, h1, h2, h3⟩ := (hI.flight _ hm).2 hwd hr'
       simp only at h1 h2 h3
       have hpath : (mkEntry r m a (tick s).clock).path = a :: rest := h1
       refine ⟨fun _ => by rw [hpath]; simp, fun _ => ⟨?_, ?_, ?_⟩⟩
